@@ -774,8 +774,14 @@ static void DecodeNorm(Word Index) {
             BAsmCode[0] = Lo(pOrder->Codes[AdrResult.ErgMode]);
             memcpy(BAsmCode + 1, AdrResult.AdrVals, AdrResult.AdrCnt);
             CodeLen = AdrResult.AdrCnt + 1;
-            if ((AdrResult.ErgMode == ModInd16) && (MomCPU != CPU65C02)
-                && (BAsmCode[1] == 0xff)) {
+            /* JMP (xxFF): the NMOS parts fetch the pointer's high byte from xx00.
+               65SC02, 65C02, W65C02S and the cores derived from them (65CE02,
+               HuC6280) fetch it correctly; nothing is known about the 65C19 and
+               the MELPS740, which remain on the safe side: */
+
+            if ((AdrResult.ErgMode == ModInd16) && (BAsmCode[1] == 0xff)
+                && ((MomCPU == CPU6502) || (MomCPU == CPU6502U) || (MomCPU == CPU65C19)
+                    || (MomCPU == CPUM740))) {
                 WrError(ErrNum_NotOnThisAddress);
                 CodeLen = 0;
             }
